@@ -440,7 +440,9 @@ class MultiCrossBlockRepeat(Block):
             if not isinstance(factor.name, HiddenName):
                 factor_test = True
                 sustain_count = self.sustain_count(factor)
-                for i in range(0, len(sample_objects[factor]), sustain_count):
+                # Every trial, not just the first of each sustained group: the factor's
+                # sources are not necessarily sustained themselves
+                for i in range(0, len(sample_objects[factor])):
                     factor_test &= factor.test_trial(i, sample_objects, sustain_count)
                 if not factor_test:
                     res.append(factor.name)
